@@ -1,6 +1,6 @@
 (* Correspondence check for C05: implementation observations vs the model (codes 1..9) and vs the
    specification the theorems of Props/C05.v state (codes 11..19). *)
-From RV Require Import Model.KeyCodec.
+From RV Require Import Model.KeyCodec Proofs.C05_KeySpace.
 Open Scope N_scope.
 
 Inductive case :=
@@ -39,8 +39,12 @@ Definition check_case (c : case) : list N :=
       (if N.of_nat (length ranges) =? n then [] else [13])
   | KeyC count n own subject ns data t o_kg o_ridx o_route o_dbkey o_subjkey o_timerkey o_owns_db o_owns_timer =>
       let kg := key_group count subject in
-      let ri := range_index count n subject in
-      let rng := nth (N.to_nat own) (kg_ranges count n) (0, 0) in
+      (* = range_index count n subject by theorem range_index_is_find (Props/C05.v); the table itself is
+         evaluated for small configurations only (it costs O(count) per case) *)
+      let rs := kg_ranges count n in
+      let ri := find_range rs kg 0 in
+      let rng := nth (N.to_nat own) rs (0, 0) in
+      (if (count <=? 600) then (if range_index count n subject =? ri then [] else [3]) else []) ++
       (if o_kg =? kg then [] else [2]) ++
       (if o_ridx =? ri then [] else [3]) ++
       (if o_route =? ri then [] else [4]) ++
@@ -58,7 +62,7 @@ Definition check_case (c : case) : list N :=
       (if Bool.eqb o_owns_db (o_route =? own) && Bool.eqb o_owns_timer (o_route =? own) then [] else [16]) ++
       (if bytes_eqb (firstn 2 o_dbkey) (be16 o_kg) && bytes_eqb (firstn 2 o_timerkey) (be16 o_kg)
           && bytes_eqb (firstn 2 o_subjkey) (be16 o_kg) then [] else [17]) ++
-      (if includes_kg (nth (N.to_nat o_route) (kg_ranges count n) (0, 0)) o_kg then [] else [18])
+      (if includes_kg (nth (N.to_nat o_route) rs (0, 0)) o_kg then [] else [18])
   end.
 
 Definition run (cases : list (N * case)) : list (N * N) :=
